@@ -2,6 +2,9 @@
 use crate::engine::{Plan, Tier};
 
 pub mod c01;
+pub mod c06;
+pub mod c08;
+pub mod c09;
 pub mod c12;
 pub mod c13;
 
@@ -13,6 +16,9 @@ pub const ALL: &[&str] = &[
 pub fn plan(id: &str, tier: Tier) -> Option<Plan> {
     match id {
         "C01" => Some(c01::plan(tier)),
+        "C06" => Some(c06::plan(tier)),
+        "C08" => Some(c08::plan(tier)),
+        "C09" => Some(c09::plan(tier)),
         "C12" => Some(c12::plan(tier)),
         "C13" => Some(c13::plan(tier)),
         _ => None,
